@@ -1,3 +1,4 @@
+import PonyVerif.Model.Store
 /-
   C08 — hand model of attribute validation (pony/orm/dbapiprovider.py: IntConverter.init / validate,
   RealConverter.validate, DecimalConverter.validate, StrConverter.init / validate; pony/orm/core.py:
@@ -416,5 +417,85 @@ def validateDb (_a : AttrOpts) (sql2py : Val → Res) (v : Val) : Res :=
   | .flt x => sql2py (.flt x)
   | .dec x => sql2py (.dec x)
   | .other t => sql2py (.other t)
+
+/-! ### temporal attributes: DateConverter / TimeConverter / DatetimeConverter .validate
+    (candidates of the neighbouring types: `datetime` is a subclass of `date`, so the ORDER of the isinstance tests matters) -/
+
+/-- candidate / normalised values of the temporal attribute types -/
+inductive TVal where
+  | none
+  | date (y m d : Nat)
+  | datetime (y m d h mi s us : Nat)
+  | time (h mi s us : Nat)
+  | str (s : List Char)
+  | other (tag : String)
+  deriving Repr, DecidableEq, Inhabited
+
+def TVal.isDate : TVal → Bool
+  | .date _ _ _ => true
+  | _ => false
+def TVal.isTime : TVal → Bool
+  | .time _ _ _ _ => true
+  | _ => false
+def TVal.isDatetime : TVal → Bool
+  | .datetime _ _ _ _ _ _ _ => true
+  | _ => false
+/-- the microsecond field of a time / datetime -/
+def TVal.us? : TVal → Option Nat
+  | .time _ _ _ us => some us
+  | .datetime _ _ _ _ _ _ us => some us
+  | _ => Option.none
+
+
+abbrev TRes := Except String TVal
+
+/-- `ConverterWithMicroseconds.init`: `if not isinstance(precision, int) or not 0 <= precision <= 6: throw(ValueError)` -/
+def precisionInit (p : Int) : Except String Nat := if 0 ≤ p ∧ p ≤ 6 then .ok p.toNat else .error "ValueError"
+
+/-- `DateConverter.validate`; `str2date` is `pony.converting.str2date` (error = class name of what it raises).
+    `if isinstance(val, datetime): return val.date()` comes FIRST — a datetime is also a date -/
+def dateValidate (str2date : List Char → TRes) (v : TVal) : TRes :=
+  match v with
+  | .datetime y m d _ _ _ _ => .ok (.date y m d)
+  | .date y m d => .ok (.date y m d)
+  | .str s => str2date s
+  | .none => .error "TypeError"
+  | .time _ _ _ _ => .error "TypeError"
+  | .other _ => .error "TypeError"
+
+/-- microseconds after `round_microseconds_to_precision` (typed mirror in Model/Store.lean, bridged to the source in Props/C07) -/
+def roundTimeT (p : Nat) (v : TVal) : TVal :=
+  match v with
+  | .time h mi s us => .time h mi s (PonyVerif.Model.Store.roundedUs us p)
+  | .datetime y m d h mi s us => .datetime y m d h mi s (PonyVerif.Model.Store.roundedUs us p)
+  | .none => .none
+  | .date y m d => .date y m d
+  | .str s => .str s
+  | .other t => .other t
+
+/-- `TimeConverter.validate`: a `time` is taken as it is, a str goes through `str2time`, everything else (date, datetime,
+    timedelta, numbers) is a TypeError; then the microseconds are rounded to the declared precision -/
+def timeValidateC (p : Nat) (str2time : List Char → TRes) (v : TVal) : TRes :=
+  match v with
+  | .time h mi s us => .ok (roundTimeT p (.time h mi s us))
+  | .str s => (match str2time s with
+    | .ok r => .ok (roundTimeT p r)
+    | .error e => .error e)
+  | .none => .error "TypeError"
+  | .date _ _ _ => .error "TypeError"
+  | .datetime _ _ _ _ _ _ _ => .error "TypeError"
+  | .other _ => .error "TypeError"
+
+/-- `DatetimeConverter.validate`: only a `datetime` (NOT a plain date) or a str -/
+def datetimeValidateC (p : Nat) (str2datetime : List Char → TRes) (v : TVal) : TRes :=
+  match v with
+  | .datetime y m d h mi s us => .ok (roundTimeT p (.datetime y m d h mi s us))
+  | .str s => (match str2datetime s with
+    | .ok r => .ok (roundTimeT p r)
+    | .error e => .error e)
+  | .none => .error "TypeError"
+  | .date _ _ _ => .error "TypeError"
+  | .time _ _ _ _ => .error "TypeError"
+  | .other _ => .error "TypeError"
 
 end PonyVerif.Model.Validate
